@@ -14,8 +14,8 @@ from mpv import arr, ref
 ANCHORS = ['mpilot/libraries/eems/fuzzy.py:FuzzyOr.execute', 'mpilot/libraries/eems/fuzzy.py:FuzzyAnd.execute', 'mpilot/libraries/eems/fuzzy.py:FuzzyNot.execute', 'mpilot/libraries/eems/fuzzy.py:FuzzyUnion.execute', 'mpilot/libraries/eems/fuzzy.py:FuzzyWeightedUnion.execute', 'mpilot/libraries/eems/fuzzy.py:FuzzySelectedUnion.execute', 'mpilot/libraries/eems/fuzzy.py:FuzzyXOr.execute']   # repository functions the workload must enter (reported as anchors_reached / anchors_missed)
 LEVEL = "exploration"
 RULE = ("operator x parameter x input-order x layout cases; n<=3 inputs enumerate the complete 18^n value/missing lattice as "
-        "array cells, n=4,5 sample cell tuples; a case is distinct by (operator, n, params, layout rank, order class)")
-REQUIRED_COUNTERS = ["ref_postconditions", "law_checks", "cells_compared", "repeated_field_cases", "mixed_dtype_cases", "saturated_field_cases"]
+        "array cells (rank 2-3 shapes also with inputs in Fortran-order / strided / negative-stride memory), n=4,5 sample cell tuples; a case is distinct by (operator, n, params, layout rank, order class)")
+REQUIRED_COUNTERS = ["ref_postconditions", "law_checks", "cells_compared", "repeated_field_cases", "mixed_dtype_cases", "saturated_field_cases", "memory_layout_cases"]
 EXHAUSTIVE_NOTE = "complete {17 fuzzy values + missing}^n lattice for n = 1, 2, 3 in both tiers"
 ASSUMPTIONS = ["reference models in mpv/ref.py (exact rationals) are the EEMS definitions as stated in the property",
                "numpy masked-array primitives are trusted", "FuzzyXOr with one input, k outside 1..n and zero weight sums are don't-care"]
@@ -37,14 +37,18 @@ def sampled_columns(rng, n, count):
     return [[rng.choice(VALUES) for _ in range(count)] for _ in range(n)]
 
 
-def build_inputs(cols, shape, payload=0.0, dtypes=None):
+def build_inputs(cols, shape, payload=0.0, dtypes=None, mem=None):
     out = []
     for k, col in enumerate(cols):
         dt = dtypes[k] if dtypes else "float64"
         pl = payload if not dt.startswith("int") else 0
         data = numpy.array([pl if v is None else v for v in col], dtype=dt).reshape(shape)
         mask = numpy.array([v is None for v in col], dtype=bool).reshape(shape)
-        out.append(numpy.ma.array(data, mask=mask))
+        if mem and mem[k]:
+            # the same cells held in another memory layout (Fortran order, strided view, negative stride)
+            out.append(numpy.ma.array(arr._relayout(data, mem[k]), mask=arr._relayout(mask, mem[k]), copy=False))
+        else:
+            out.append(numpy.ma.array(data, mask=mask))
     return out
 
 
@@ -88,6 +92,13 @@ def cases(ctx):
                         if ctx.mine(idx):
                             yield {"kind": "lattice", "n": n, "op": op, "params": params, "shape": list(shape), "order": list(order)}
                         idx += 1
+                        if li > 0:
+                            mem = [rng.choice(arr.LAYOUTS + (None,)) for _ in range(n)]
+                            if not any(mem):
+                                mem[rng.randrange(n)] = rng.choice(arr.LAYOUTS)
+                            if ctx.mine(idx):
+                                yield {"kind": "lattice", "n": n, "op": op, "params": params, "shape": list(shape), "order": list(order), "mem": mem}
+                            idx += 1
     # repeated fields ([A, A, B]) and mixed element types (crisp integer -1/0/1 fields, float32 fields) in any order
     for r in range(ctx.n(40, 2000)):
         n = rng.choice([2, 3, 3, 4])
@@ -123,8 +134,11 @@ def cases(ctx):
         order = list(range(n))
         rng.shuffle(order)
         shape = rng.choice([(count,), (count // 50, 50), (count // 100, 10, 10)])
-        yield {"kind": "sampled", "n": n, "op": op, "params": rng.choice(ps), "shape": list(shape), "order": order,
-               "count": count, "rseed": rng.randrange(10 ** 9)}
+        c = {"kind": "sampled", "n": n, "op": op, "params": rng.choice(ps), "shape": list(shape), "order": order,
+             "count": count, "rseed": rng.randrange(10 ** 9)}
+        if rng.random() < 0.5:
+            c["mem"] = [rng.choice(arr.LAYOUTS + (None,)) for _ in range(n)]
+        yield c
 
 
 def _columns(case):
@@ -173,13 +187,16 @@ def run_case(ctx, case):
     ocols = [cols[i] for i in order]
     oparams = _weights_for(params, order)
     odt = [dtypes[i] for i in order] if dtypes else None
-    inputs = build_inputs(ocols, shape, payload=ctx.rng("payload", op, n).choice([0.0, 1e30, -1e30, 0.5]), dtypes=odt)
+    mem = case.get("mem")
+    if mem:
+        ctx.count("memory_layout_cases")
+    inputs = build_inputs(ocols, shape, payload=ctx.rng("payload", op, n).choice([0.0, 1e30, -1e30, 0.5]), dtypes=odt, mem=[mem[i] for i in order] if mem else None)
     if refs:
         ctx.count("repeated_field_cases")
         ocols = [ocols[i] for i in refs]
     if dtypes:
         ctx.count("mixed_dtype_cases")
-    ctx.feature((op, n, tuple(sorted((k, str(v)) for k, v in params.items())), len(shape), "identity" if order == sorted(order) else "permuted", bool(refs), tuple(odt or ())))
+    ctx.feature((op, n, tuple(sorted((k, str(v)) for k, v in params.items())), len(shape), "identity" if order == sorted(order) else "permuted", bool(refs), tuple(odt or ()), tuple(m or "C" for m in mem) if mem else ()))
     ctx.count("operator_calls")
     fcols = [[None if v is None else Fraction(v) for v in c] for c in ocols]
     try:
@@ -204,7 +221,7 @@ def run_case(ctx, case):
     if bad:
         kind, i, g, w = bad
         small = _one_cell_case(case, cols, i) if i is not None and not refs and not dtypes else case
-        nclass = "n%d" % n if n <= 2 else "n>=3"
+        nclass = ("n%d" % n if n <= 2 else "n>=3") + (":non-contiguous-input" if mem else "")
         ctx.fail("%s:%s:%s:%s" % (op, kind, nclass, rk),
                  {"cell_inputs": [c[i] for c in ocols] if i is not None else None, "got": g, "want": w, "params": oparams, "shape": list(shape)}, small)
         return
